@@ -249,7 +249,7 @@ def run_model_vm(extract_v_module: str, inputs: Sequence[str], timeout: int = 18
         chunks = re.split(r'@@(\d+)\n', out)
         for i in range(1, len(chunks), 2):
             body = chunks[i + 1]
-            body = body.split(':=', 1)[1].rsplit(':', 1)[0]
+            body = re.split(r'out\d+\s*:?=', body, 1)[1].rsplit(':', 1)[0]
             res.append(coq_sexp_to_wire(body))
         return res
     finally:
@@ -350,6 +350,7 @@ class PropertyCheck:
         self.nontrivial: set = set()
         self.exhaustive = False
         self.notes: List[str] = []
+        self._vm_record: Dict[str, List[Tuple[str, str]]] = {}
 
     # -- to override
     def correspondence(self) -> List[Violation]:
@@ -378,7 +379,14 @@ class PropertyCheck:
             self.samples.append(x)
 
     def model(self, name: str, inputs: Sequence[str]) -> List[str]:
-        return run_model_parallel(self.binaries[name], inputs)
+        outs = run_model_parallel(self.binaries[name], inputs)
+        rec = self._vm_record.setdefault(name, [])
+        if len(rec) < 400 and inputs:
+            step = max(1, len(inputs) // 40)
+            for i in range(0, len(inputs), step):
+                if len(inputs[i]) < 4000:
+                    rec.append((inputs[i], outs[i]))
+        return outs
 
 
 def write_replay(prop: str, seed: int, v: Violation, idx: int = 0) -> Path:
@@ -469,6 +477,31 @@ def run_check(cls: type, tier: str, seed: int) -> int:
         for v in found:
             (violations if v.kind == 'oracle' else broken).append(v)
 
+    # 6b. thorough tier: cross-check extraction against the kernel's evaluator, and re-check the .vo with coqchk
+    if tier == 'thorough' and models_ok and not broken:
+        for name, xv in chk.models.items():
+            rec = chk._vm_record.get(name, [])[:60]
+            if not rec:
+                continue
+            modname = vm_module_of(xv)
+            try:
+                vm = run_model_vm(modname, [i for i, _ in rec])
+                bad = [(i, o, v) for (i, o), v in zip(rec, vm) if dec(o) != dec(v)]
+                chk.stats['vm_crosscheck_%s' % name] = len(rec)
+                if bad:
+                    broken.append(Violation('correspondence', 'extracted OCaml and vm_compute disagree on model %s: %r'
+                                            % (name, bad[0]), found_input=False))
+            except Exception as e:  # noqa
+                chk.notes.append('vm cross-check of %s not run: %s' % (name, str(e)[-300:]))
+        if chk.props_module:
+            rc, out = sh(['coqchk', '-silent', '-o', '-Q', str(THEORIES), 'PydoctorVerif',
+                          'PydoctorVerif.' + chk.props_module], cwd=COQ, timeout=3000)
+            cmds.append('coqchk -o PydoctorVerif.' + chk.props_module)
+            m = re.search(r'\* Axioms:\s*(.*?)(?:\n\s*\n|\* |\Z)', out, flags=re.S)
+            chk.stats['coqchk'] = {'rc': rc, 'axioms': (m.group(1).strip()[:1500] if m else out[-600:])}
+            if rc != 0:
+                broken.append(Violation('theorem', 'coqchk rejected the compiled development: ' + out[-800:], found_input=False))
+
     # 7. search for a concrete failing input when something broke and no oracle failure is at hand
     if broken and not violations:
         try:
@@ -532,6 +565,12 @@ def run_check(cls: type, tier: str, seed: int) -> int:
     print('%s %s tier=%s seed=%d obligations=%d/%d evaluations=%d wall=%.1fs' % (
         prop, 'FAIL' if reported else 'ok', tier, seed, discharged, obligations, chk.evaluations, time.time() - t0))
     return 1 if reported else 0
+
+
+def vm_module_of(extract_v: str) -> str:
+    """The model module an Extract file extracts `run` from: the LAST PydoctorVerif module it imports."""
+    deps = model_vo_deps(extract_v)
+    return deps[-1][:-3].replace('/', '.')
 
 
 def model_vo_deps(extract_v: str) -> List[str]:
